@@ -386,7 +386,11 @@ def finding_key(f):
 
 
 def finish(ctx: Ctx, bres: BuildResult, theorems, t0, level_text='', replay_mode=False):
-    os.makedirs(os.path.join(VERIF, 'evidence'), exist_ok=True)
+    # evidence of /repo itself lives in /verif/evidence; a run against a scratch tree
+    # (DINOSAUR_REPO=..., mutation self-tests, seeded changes) must never overwrite it
+    evdir = os.environ.get('VERIF_EVIDENCE_DIR') or (os.path.join(VERIF, 'evidence') if os.path.realpath(REPO) == '/repo'
+                                                     else os.path.join(VERIF, 'replay', 'scratch-evidence'))
+    os.makedirs(evdir, exist_ok=True)
     os.makedirs(os.path.join(VERIF, 'replay'), exist_ok=True)
     known = [k for k in load_known() if k.get('property') == ctx.id and k.get('status') == 'known']
     known_keys = {json.dumps(k['key'], sort_keys=True): k for k in known}
@@ -459,7 +463,7 @@ def finish(ctx: Ctx, bres: BuildResult, theorems, t0, level_text='', replay_mode
         'wall_s': round(time.time() - t0, 2), 'violations': nviol,
     }
     if not replay_mode:
-        with open(os.path.join(VERIF, 'evidence', f'{ctx.id}.json'), 'w') as fh:
+        with open(os.path.join(evdir, f'{ctx.id}.json'), 'w') as fh:
             json.dump(jsonable(ev), fh, indent=1)
     for l in lines: print(l)
     print(f'[{ctx.id}] tier={ctx.tier} seed={ctx.seed} cases={ctx.cases} comparisons={ctx.comparisons} '
